@@ -9,10 +9,51 @@ HERE = os.path.dirname(os.path.abspath(__file__))
 PROP = 'C14'
 
 
+sys.path.insert(0, os.path.join(os.path.dirname(HERE), 'lib'))
+sys.path.insert(0, os.path.dirname(HERE))
+import json
+import vf
+
+
+def atoms_plan(ctx):
+    """the byte-level atoms the JSON grammar is built from (peek_utf8 via utf8::range, one/ranges/string families), real code on symbolic bytes (CBMC)"""
+    from props import C10
+    import leafgen
+    qs = []
+    groups = [g for g in C10.utf8_groups(False)][:3] + [g for g in C10.ascii_groups(False) if any(k in g['name'] for k in ('one', 'range', 'class'))][:3]
+    for g in groups:
+        k = max(c['k'] for c in g['cases'])
+        NA = k + 1
+        unit = ctx.unit('c14a_' + g['name'], text=leafgen.wrapper_text(g['cases'], includes=g.get('includes', ())))
+        h = ctx.write('c14a_%s.c' % g['name'], C10.harness_text(g, NA))
+        qs.append(vf.Query('atoms/' + g['name'], unit, h, unwind=NA + 3, mem_gb=4, bounds={'bytes': NA, 'rules': [c['cxx'] for c in g['cases']]},
+                           note='atoms of the JSON grammar: real rules on symbolic bytes vs independent specification (as C10)'))
+    return qs
+
+
 def main(tier, seed, replay):
     # ./check runs under the system python3, the solvers' bindings live in the python3-vt environment
+    if replay and 'inputs' in json.load(open(replay)):
+        return vf.main_check(PROP, atoms_plan, tier, seed, replay=replay, evidence_name=PROP + '_atoms')
     cmd = ['python3-vt', os.path.join(os.path.dirname(HERE), 'lib', 'peg2smt', 'driver.py'), PROP, '--tier', tier, '--seed', str(seed)]
     if replay:
         cmd += ['--replay', replay]
     sys.stdout.flush()
-    return subprocess.run(cmd).returncode
+    rc = subprocess.run(cmd).returncode
+    if replay:
+        return rc
+    # E2 takes the semantics of the atoms from a specification; the same run proves them for the REAL atoms (engine E1)
+    rc2 = vf.main_check(PROP, atoms_plan, tier, seed, 'atoms of the grammar: real rules on symbolic bytes (CBMC)', evidence_name=PROP + '_atoms')
+    ev = os.path.join(os.path.dirname(HERE), 'evidence', PROP + '.json')
+    eva = os.path.join(os.path.dirname(HERE), 'evidence', PROP + '_atoms.json')
+    try:
+        e, a = json.load(open(ev)), json.load(open(eva))
+        e['coverage']['atoms_cbmc'] = {'queries': len(a['coverage']['samples']), 'held': a['coverage']['discharged'], 'violations': a.get('violations', 0),
+                                       'samples': [{k: s.get(k) for k in ('query', 'status', 'bounds', 'cbmc_s')} for s in a['coverage']['samples']]}
+        e['violations'] = e.get('violations', 0) + a.get('violations', 0)
+        e['wall_s'] = e.get('wall_s', 0) + a.get('wall_s', 0)
+        json.dump(e, open(ev, 'w'), indent=1)
+        os.remove(eva)
+    except Exception as x:   # evidence merging must never turn a verdict around
+        print('note: could not merge atom evidence: %s' % x)
+    return max(rc, rc2) if 1 not in (rc, rc2) else 1
